@@ -107,7 +107,7 @@ def corpus():
 
 
 def gen_cases(rng, tier):
-    n = 1500 if tier == "quick" else 30000
+    n = 1500 if tier == "quick" else 14000
     g = gn.G(rng)
     fg = mr.FG(rng, hazards=0.0)
     qg = qf.QGen(rng, p_alias=0.1, p_subq=0.0, hostile=0.3)
